@@ -437,6 +437,76 @@ def r09_c(ctx):
     return rr
 
 
+def r09_j(ctx):
+    """the passes of read_args: the first bracket pass and the first brace pass run unconditionally; a further pass starts
+    only on a group of its own kind that is directly adjacent, and on nothing else"""
+    repo = ctx.repo
+    rr = RuleResult('R09.j', 'in read_args the first bracket pass and the first brace pass are unconditional; every later '
+                    'pass is entered only when the next token opens a group of that pass\'s kind (no whitespace in '
+                    'between), and no pass is made to depend on anything but the next token\'s kind and the counts', floor=4)
+    fd = repo.need_func('reader.read_args')
+    ps = fd.params()
+    cur = ps[0]
+    kinds = {}
+    for lfd, loop in _arg_loops(repo):
+        lc = lfd.params()[0]
+        ks = {norm(n.comparators[0]) for n in ast.walk(loop) if isinstance(n, ast.Compare) and len(n.ops) == 1
+              and isinstance(n.ops[0], ast.Eq) and norm(n.left) == '%s.peek().category' % lc}
+        if len(ks) != 1:
+            raise AnalysisError('%s: the kind that opens an argument is not a single equality test' % lfd.qual)
+        kinds[lfd.node.name] = ks.pop()
+    calls = [n for n in ast.walk(fd.node) if isinstance(n, ast.Call) and isinstance(n.func, ast.Name) and n.func.id in kinds]
+    calls.sort(key=lambda n: (n.lineno, n.col_offset))
+    if len(calls) < 2:
+        raise AnalysisError('read_args: the argument passes are not calls of the two argument loops')
+    for c in calls:
+        p = getattr(c, '_parent', None)
+        while p is not None and p is not fd.node:
+            if isinstance(p, (ast.For, ast.While, ast.Try, ast.FunctionDef, ast.Lambda)):
+                raise AnalysisError('read_args: an argument pass inside a %s is not a recognised shape' % type(p).__name__)
+            p = getattr(p, '_parent', None)
+    seen = set()
+    foreign = set(ps) - {cur}
+    for c in calls:
+        name = c.func.id
+        later = name in seen
+        seen.add(name)
+        guards = rules_reader._guards_dominating(fd, c)
+        atoms_true = []
+        bad = []
+        for t, tr in guards:
+            conj = tr and not (isinstance(t, ast.BoolOp) and isinstance(t.op, ast.Or))
+            for a in _bool_atoms(t):
+                txt = norm(a)
+                names = {x.id for x in ast.walk(a) if isinstance(x, ast.Name)}
+                is_count = isinstance(a, ast.Compare) and isinstance(a.left, ast.Name) and a.left.id in ps \
+                    and all(isinstance(k, ast.Constant) and isinstance(k.value, int) for k in a.comparators)
+                is_has = txt == '%s.hasNext()' % cur
+                is_kind = isinstance(a, ast.Compare) and norm(a.left) == '%s.peek().category' % cur and len(a.ops) == 1 \
+                    and isinstance(a.ops[0], ast.Eq)
+                if is_count:
+                    continue
+                if is_has or is_kind:
+                    if not later:
+                        bad.append((a, 'the first %s pass is entered only under %s' % (name, txt[:50])))
+                    elif conj:
+                        atoms_true.append(txt)
+                    continue
+                if names & foreign or cur in names:
+                    bad.append((a, 'the %s pass depends on %s' % (name, txt[:50])))
+                else:
+                    raise AnalysisError('read_args: condition %s on an argument pass is not recognised' % txt[:60])
+        want = '%s.peek().category == %s' % (cur, kinds[name])
+        if later and want not in atoms_true:
+            bad.append((c, 'a further %s pass is entered without testing that the next token is %s' % (name, kinds[name])))
+        rr.ob(not bad, {'pass': '%s:%d' % (name, c.lineno), 'further_pass': later,
+                        'entered_under': [norm(t)[:70] for t, tr in guards]})
+        for a, why in bad:
+            rr.fail(Finding('R09.j', 'reader', fd.qual, a, why + ': a group separated from the arguments by whitespace '
+                            'would be attached, or an adjacent one left in the text depending on the context', line=a.lineno))
+    return rr
+
+
 def r02_c(ctx):
     """remaining-argument counts returned by the argument readers are threaded on, not dropped"""
     repo = ctx.repo
